@@ -1,4 +1,7 @@
+#[cfg(not(prqlc_verif))]
 use std::collections::HashMap;
+#[cfg(prqlc_verif)]
+use prqlc_parser::verif_hash::HashMap;
 
 use itertools::Itertools;
 use prqlc_parser::generic;
